@@ -129,7 +129,8 @@ def step (st : St) (op : List String) (impl : List String) : St × String × Opt
       let g := { st.g with tainted := true }
       let g := if ires == "ok" then
           let q' := (g.queue c.sid).filter (·.id != c.id)
-          { g with queues := SchedSpec.insert g.queues c.sid q', nBytes := g.nBytes - c.len, nChunks := g.nChunks - 1 }
+          { g with queues := SchedSpec.insert g.queues c.sid q', nBytes := g.nBytes - c.len, nChunks := g.nChunks - 1,
+                   nzQueued := g.nzQueued - (if c.len != 0 then 1 else 0) }
         else g
       ({ st with q := q, g := g, dead := r == .panic }, res, g.checkCounters nb nc)
     | _ => ({ st with q := q, dead := r == .panic }, res, some "unparsable rawpop result")
